@@ -287,7 +287,8 @@ class GaussianPrior(BasePrior):
         :returns: \
             The gradient of the prior log-probability with respect to the model parameters.
         """
-        return (self.mean - theta[self.variables]) * self.inv_sigma_sqr
+        # (two factors of 1/sigma: their product under- or overflows for extreme sigma)
+        return (self.mean - theta[self.variables]) * self.inv_sigma * self.inv_sigma
 
     def sample(self) -> ndarray:
         """
